@@ -6,6 +6,7 @@ import (
 	"verif/harness/hk"
 	"verif/worker"
 
+	_ "verif/harness/c01"
 	_ "verif/harness/c02"
 	_ "verif/harness/c06"
 	_ "verif/harness/c13"
